@@ -185,8 +185,15 @@ def _needs_local(pname, arg, body_nodes):
     different number of times than the call did."""
     if isinstance(arg, list) or not isinstance(arg, ast.AST):
         return False
-    if not any(isinstance(x, (ast.Call, ast.Yield, ast.YieldFrom, ast.Await,
-                              ast.NamedExpr)) for x in ast.walk(arg)):
+    def effectful(x):
+        if isinstance(x, ast.Call):
+            # the option accessor returns the one namespace object
+            return not (not x.args and not x.keywords and ast.unparse(
+                x.func) in ('options.args', 'args'))
+        return isinstance(x, (ast.Yield, ast.YieldFrom, ast.Await,
+                              ast.NamedExpr))
+
+    if not any(effectful(x) for x in ast.walk(arg)):
         return False
     uses = 0
     in_loop = False
